@@ -724,11 +724,24 @@ theorem adapterLoadFiltered_exact (s : EState) (m : Store) (f : Option Filter) :
     · simp only [he, Bool.false_eq_true, ↓reduceIte, filtered_exact s.file f m, selected]
       cases firstError (textLines true s.file) <;> rfl
 
+/-- the adapter raises only where a line of the file makes the loader raise -/
+theorem adapterLoadFiltered_ok (s : EState) (m : Store) (f : Option Filter)
+    (hne : firstError (textLines true s.file) = none) : (adapterLoadFiltered s m f).2.2 = none := by
+  cases f with
+  | none => simp [adapterLoadFiltered, adapterLoad, load_full_general, hne]
+  | some f =>
+    unfold adapterLoadFiltered
+    by_cases he : isEmptyFilter f = true
+    · simp [he, adapterLoad, load_full_general, hne]
+    · simp only [he, Bool.false_eq_true, ↓reduceIte, filtered_exact s.file f m, hne]
+
 /-- **`incremental_appends`** (and `filtered_exact` at enforcer level), for every file and every filter:
     `load_increment_filtered_policy` leaves every policy type with what it held plus the selected rules of the file, in
-    file order (nothing is dropped, nothing is deduplicated); `load_filtered_policy` does the same starting from the
-    cleared policy.  (`goodPrefix` = the whole file unless a line makes the loader raise.) -/
-theorem incremental_appends (clear : Bool) (s : EState) (f : Option Filter) :
+    file order (nothing is dropped, nothing is deduplicated) - also when a line makes the loader raise (`goodPrefix` =
+    the lines before it); `load_filtered_policy` does the same starting from the cleared policy when the adapter does
+    not raise (when it does, the repaired enforcer keeps memory as it was: `loadFiltered_failed_noop`, F26c). -/
+theorem incremental_appends (clear : Bool) (s : EState) (f : Option Filter)
+    (h : clear = true → (adapterLoadFiltered s (clearPG s.mem) f).2.2 = none) :
     (loadFilteredGen clear s f).1.mem =
       extend (if clear then clearPG s.mem else s.mem)
         (selected f (parsedPairs (goodPrefix (textLines true s.file)))) := by
@@ -736,7 +749,14 @@ theorem incremental_appends (clear : Bool) (s : EState) (f : Option Filter) :
   have := adapterLoadFiltered_exact s (if clear then clearPG s.mem else s.mem) f
   simp only
   split
-  · rename_i heq; rw [heq] at this; simpa using this
+  · rename_i s1 m1 e heq
+    rw [heq] at this
+    cases clear with
+    | true =>
+      have h' := h rfl
+      simp only [↓reduceIte] at heq
+      rw [heq] at h'; simp at h'
+    | false => simpa using this
   · rename_i heq; rw [heq] at this; simpa using this
 
 /-- the same when no line of the file raises: the whole file is read -/
@@ -744,7 +764,38 @@ theorem incremental_appends_ok (clear : Bool) (s : EState) (f : Option Filter)
     (hok : ∀ l ∈ textLines true s.file, ∀ e, parseLine l ≠ .error e) :
     (loadFilteredGen clear s f).1.mem =
       extend (if clear then clearPG s.mem else s.mem) (selected f (parsedPairs (textLines true s.file))) := by
-  rw [incremental_appends, goodPrefix_of_no_error _ ((firstError_none_iff _).mpr hok)]
+  have hne := (firstError_none_iff _).mpr hok
+  rw [incremental_appends clear s f (fun _ => adapterLoadFiltered_ok s _ f hne), goodPrefix_of_no_error _ hne]
+
+/-- **F26c repaired**: a `load_filtered_policy` whose adapter raises (a malformed line, an invalid filter object, the
+    file missing) changes nothing at all - memory, links and `is_filtered()` are what they were, so a following
+    `save_policy` is refused or allowed exactly as before the call -/
+theorem loadFiltered_failed_noop (s : EState) (f : Option Filter) (e : Err)
+    (h : (adapterLoadFiltered s (clearPG s.mem) f).2.2 = some e) : loadFiltered s f = (s, some e) := by
+  have hs : (adapterLoadFiltered s (clearPG s.mem) f).1 = s := by
+    cases f with
+    | none => exact adapterLoad_failed_noop s _ e (by simpa [adapterLoadFiltered] using h)
+    | some f =>
+      unfold adapterLoadFiltered at h ⊢
+      by_cases he : isEmptyFilter f = true
+      · simp only [he, ↓reduceIte] at h ⊢
+        cases hx : (adapterLoad s (clearPG s.mem)).2.2 with
+        | none => rw [hx] at h; simp at h
+        | some e' => exact adapterLoad_failed_noop s _ e' hx
+      · simp only [he, Bool.false_eq_true, ↓reduceIte] at h ⊢
+        split
+        · rfl
+        · rename_i heq; rw [heq] at h; simp at h
+  unfold loadFiltered loadFilteredGen
+  simp only [↓reduceIte]
+  cases hA : adapterLoadFiltered s (clearPG s.mem) f with
+  | mk s1 rest =>
+    cases rest with
+    | mk m1 e1 =>
+      rw [hA] at h hs
+      simp only at h hs
+      subst h; subst hs
+      rfl
 
 /-- the links a policy defines: for every `g` type, every rule cut to the role definition's arity -/
 def edges (m : Store) : List Link :=
